@@ -8,7 +8,7 @@ From DT Require Import Lib.Bytes.
 Record cst := { count : Z; opened : list nat }.      (* reported counter; connections being served *)
 Definition cinit : cst := {| count := 0; opened := [] |}.
 Inductive cev :=
-| CAccept (c : nat)      (* a TCP connection arrives; admitted iff a slot is free *)
+| CAccept (c : nat)      (* a TCP connection arrives; let in iff a slot is free *)
 | CEnd (c : nat).        (* a served connection ends: failed handshake, no channel, normal, abrupt *)
 Definition mem_nat (c : nat) (l : list nat) : bool := existsb (Nat.eqb c) l.
 Definition cstep (max : Z) (s : cst) (e : cev) : cst * bool :=
@@ -48,7 +48,7 @@ Definition pstep (max : Z) (s : pst) (e : pev) : pst :=
 Definition prun (max : Z) (es : list pev) : pst := fold_left (pstep max) es {| pcount := 0; pconns := [] |}.
 
 (* ---- case runner: the harness' history as accept/end events with what it observed ---- *)
-Definition conn_case := (Z * list (bool * nat * bool * Z))%type.  (* max; (is_accept, id, observed admitted/ended, observed count after) *)
+Definition conn_case := (Z * list (bool * nat * bool * Z))%type.  (* max; (is_accept, id, observed accepted/ended, observed count after) *)
 Fixpoint conn_check (max : Z) (s : cst) (evs : list (bool * nat * bool * Z)) : bool :=
   match evs with
   | [] => true
